@@ -44,8 +44,15 @@ def _batch(spec, samples=None):
 def oracle_repro(args):
     """same model, initial conditions, options and seeds -> identical snapshots and events, for every class incl. complete
     even-sampling trees; trajectory i does not depend on the batch size; members use distinct streams"""
+    import random as pyrandom
     spec = dict(args)
-    a, b = _batch(spec), _batch(spec)
+    # "from seeds": nothing may come from the process-wide generators; they are put in different states before each run
+    np.random.seed(12345)
+    pyrandom.seed(12345)
+    a = _batch(spec)
+    np.random.seed(54321)
+    pyrandom.seed(54321)
+    b = _batch(spec)
     problems = []
     if len(a) != len(b) or not all(_same(x, y) for x, y in zip(a, b)):
         problems.append("two runs with identical inputs differ")
@@ -206,7 +213,40 @@ def oracle_es_fresh_stream(args):
     return not problems, {"children": len(kids), "keys": keys}, {"distinct": True}, "; ".join(problems) or "ok"
 
 
-ORACLES = {"repro": oracle_repro, "zeta_order": oracle_zeta_order, "clone": oracle_clone, "es_fresh_stream": oracle_es_fresh_stream}
+@safe_oracle
+def oracle_hopper_repro(args):
+    """the hop decisions (whether, where to, with which threshold) of a hopping class on a prescribed sequence of rate vectors
+    with N >= 3 states depend on the trajectory's seed only: two trajectories with the same seed agree whatever state the
+    process-wide generators are in, and a different seed gives a different decision sequence"""
+    import random as pyrandom
+    import mudslide
+    from ..synth import ShellModel
+    N, seq = int(args["N"]), [np.array(g, dtype=np.float64) for g in args["seq"]]
+
+    def once(seed, gseed):
+        np.random.seed(gseed)
+        pyrandom.seed(gseed)
+        rho = np.zeros((N, N), dtype=np.complex128)
+        rho[0, 0] = 1.0
+        t = getattr(mudslide, args["cls"])(ShellModel(N, [1.0]), [0.0], [0.0], rho, state0=0, dt=1.0, seed_sequence=seed)
+        out = []
+        for g in seq:
+            r = t.hopper(np.array(g))
+            out.append([(int(h["target"]), float(h["zeta"]), float(h["prob"])) for h in r])
+        return out
+    a, b, c = once(args["seed"], 1), once(args["seed"], 2), once(args["seed"] + 1, 1)
+    problems = []
+    if a != b:
+        k = next(i for i, (x, y) in enumerate(zip(a, b)) if x != y)
+        problems.append("same seed, different hop decisions at step %d: %r vs %r (only the process-wide generators differ)" % (k, a[k], b[k]))
+    nh = sum(1 for x in a if x)
+    if nh >= 3 and a == c:
+        problems.append("a different seed gives the identical decision sequence (%d hops)" % nh)
+    return not problems, {"hops": nh, "targets": sorted({h[0] for x in a for h in x}), "problems": problems}, {"problems": []}, \
+        "; ".join(problems) or "ok"
+
+
+ORACLES = {"hopper_repro": oracle_hopper_repro, "repro": oracle_repro, "zeta_order": oracle_zeta_order, "clone": oracle_clone, "es_fresh_stream": oracle_es_fresh_stream}
 
 
 def run(ctx):
@@ -238,15 +278,29 @@ def run(ctx):
         if got != (zl + st)[:k]:
             ctx.corr_mismatch("draws", {"zl": zl, "stream": st, "k": k}, "model %r" % got)
 
-    for i in range(ctx.budget(10, 150)):
+    for i in range(ctx.budget(20, 150)):
         cls = CLASSES[i % 5]
         spec = dict(cls=cls, model=str(rng.choice(["simple", "dual", "extended"])), x0=float(-rng.uniform(3, 5)), k=float(rng.uniform(8, 25)),
                     seed=int(rng.integers(1, 2 ** 31)), samples=int(rng.integers(1, 4)), dt=20.0, box=2.5, maxsteps=1500, stack=[2, 2])
+        if (i // 5) % 2 == 1 and cls != "AugmentedFSSH":      # (the A-FSSH collapse is implemented for two states only: `assert nstates == 2`)
+            # three states: a hop has two open target channels, the target itself is a random decision
+            spec.update(model="super", samples=int(rng.integers(4, 9)), x0=float(-rng.uniform(6, 8)), box=6.0, k=float(rng.uniform(5, 20)))
         ok, obs, req, text = oracle_repro(spec)
-        ctx.case(("repro", cls, spec["samples"]), {"check": "repro", "spec": spec})
+        ctx.case(("repro", cls, spec["samples"], spec["model"] == "super"), {"check": "repro", "spec": spec})
         ctx.count("repro:" + cls)
         if not ok:
             ctx.oracle_fail("reproducibility:" + cls, "repro", spec, obs, req, text)
+    for i in range(ctx.budget(12, 300)):
+        N = int(rng.integers(3, 7))
+        seq = rng.random((int(rng.integers(20, 60)), N)) * 0.2
+        seq[:, 0] = 0.0
+        a = dict(cls=["TrajectorySH", "TrajectoryCum"][i % 2], N=N, seq=[[float(v) for v in g] for g in seq], seed=int(rng.integers(1, 2 ** 31)))
+        ok, obs, req, text = oracle_hopper_repro(a)
+        ctx.case(("hopper-repro", a["cls"], N, len(obs["targets"]) >= 2))
+        ctx.count("hopper_repro")
+        ctx.count("hopper_repro_hops", int(obs["hops"]))
+        if not ok:
+            ctx.oracle_fail("hopper-reproducibility:" + a["cls"], "hopper_repro", a, obs, req, text)
     for i in range(ctx.budget(8, 100)):
         a = dict(cls=["TrajectorySH", "TrajectoryCum"][i % 2], model=str(rng.choice(["simple", "dual", "extended"])), x0=-3.0,
                  k=float(rng.uniform(8, 20)), seed=int(rng.integers(1, 2 ** 31)), steps=int(rng.integers(5, 40)),
